@@ -5,7 +5,8 @@ generate(repo) -> {"PyrexVerif/Gen/Refs.lean": ..., "PyrexVerif/Gen/Env.lean": .
 
 Refs: for each `Name.attr.attr…` chain whose root is bound by an `import` (or `from … import`) of an
 external module, the pair (module path, first non-module attribute) it needs, with file:line and a
-`guarded` flag (inside `try/except (ImportError|AttributeError|Exception)`, the right operand of
+`guarded` flag (inside `try/except (ImportError|AttributeError|Exception)` or inside the body of an
+`except (ImportError|AttributeError|ModuleNotFoundError)` fallback handler, the right operand of
 `getattr(mod, "x", None) or mod.y`, or under `if hasattr(...)`).
 Env: for every external module object touched, `dir()` of the installed module.
 Fails closed: an import form or alias shape it does not understand raises.
@@ -114,7 +115,21 @@ class FileRefs(ast.NodeVisitor):
         if guarded:
             self.guard -= 1
         for h in node.handlers:
+            # the body of an `except ImportError / AttributeError / ModuleNotFoundError` handler is the version-fallback
+            # idiom (`try: new name / except AttributeError: old name`): it only runs where the primary name is missing,
+            # so its references are guarded too; handlers of any other exception type (OSError, ValueError, ...) are
+            # ordinary code and stay unguarded
+            t = h.type
+            hn = set()
+            if t is not None:
+                for e in (t.elts if isinstance(t, ast.Tuple) else [t]):
+                    hn.add(getattr(e, "id", getattr(e, "attr", "")))
+            fallback = bool(hn) and hn <= {"ImportError", "AttributeError", "ModuleNotFoundError"}
+            if fallback:
+                self.guard += 1
             self.visit(h)
+            if fallback:
+                self.guard -= 1
         for s in node.orelse + node.finalbody:
             self.visit(s)
 
